@@ -173,8 +173,15 @@ CHECKS = {
     "C18": {
         "family": "mut", "level": "proof", "modules": ["Gk.Props.C18"],
         "components": ["mut"],
-        "runs": lambda tier: [{"args": ["mut", "-n", {"quick": "300", "thorough": "30000", "widen": "5000"}[tier], "-len", "30"]}],
-        "rule": "the whole meta table (14 min labels x 14 max labels x with/without schedule-at-now x 5 original times "
+        "runs": lambda tier: [{"args": ["mut", "-n", {"quick": "300", "thorough": "30000", "widen": "5000"}[tier], "-len", "30"]},
+                              # last clause of the property: in the cron store mutation never disturbs the occurrence sequence
+                              {"args": ["cron", "-n", str({"quick": 400, "thorough": 20000, "widen": 4000}[tier]), "-len", "40"], "seed_off": 12}],
+        # the cron driver's occurrence monitors (MON C15) on histories whose entries carry mutator labels
+        "extra_mon": {"C15": r"ngicks\.(ScheduleAtNow|RandomizeScheduledAt)"},
+        "rule": "cron-store histories (the C15 family: entries with ScheduleAtNow / RandomizeScheduledAt labels, windows wider "
+                "than the schedule's interval, a store that is behind) judged by the occurrence monitors of the cron driver: "
+                "every entry hands out each occurrence of its schedule exactly once whatever the mutators did to the emitted "
+                "time; the whole meta table (14 min labels x 14 max labels x with/without schedule-at-now x 5 original times "
                 "x 7 byte streams, incl. streams that are rejected or run dry) enumerated completely, plus random "
                 "metas (random magnitudes up to +-2^63, unit suffixes, garbage) and random byte streams; Load / Apply / "
                 "ParamMutatingRepository.AddTask run under recover with injected clock and reader and compared with "
